@@ -541,10 +541,10 @@ func run(c *lib.Ctx) {
 	c.Assume("arrival order is a property of the time-ordered (simple) queue: C23 runs the pool with it",
 		"eth-signed parachain transactions (execer user.p.*) are not generated: the main chain cannot know their nonce",
 		"pool age is set with VerifSetEnterTime(now-10*limit); time expiries are >= 3e9 s: no oracle reads the clock")
-	n := c.N(80, 2000)
+	n := c.N(80, 15000)
 	per := 4
 	if !c.Quick() {
-		per = 20
+		per = 50
 	}
 	var batches []batchIn
 	var cur batchIn
